@@ -61,9 +61,9 @@ _hist_prop("C10", ["CC.Props.C10"],
     "Lean theorems over models that return the state the code leaves behind on each path: a failing update_msk, rekey, key generation or refresh returns the master key (and the user key) unchanged - the in-loop error branches are unreachable once the up-front validation passed. Correspondence: histories with 35% malformed arguments; serialised master and user keys dumped after every failing call and compared")
 _hist_prop("C11", ["CC.Props.C11", "CC.Props.NonVacuity"],
     "Lean theorems: a right's hint is the disjunction of its attributes' hints; new secrets take the hint's flavour; rekey keeps flavours; public keys and refreshed user keys copy master secrets (flavour included); an encapsulation is hybridized iff all targeted keys are; classic secrets open nothing in a hybridized encapsulation; over every history the newest secret of a right is hybridized exactly when one of its (live) attributes was declared hybridized, and update_msk never strips a post-quantum key (flavour_follows_hints, update_never_strips). Correspondence: flavour flags of MSK/MPK/USK/XEnc dumps for random hint assignments and mixed-hint policies")
-_hist_prop("C17", ["CC.Props.C17", "CC.Props.C17Alg", "CC.Props.C01Alg"], configs=BOTH, text=
+_hist_prop("C17", ["CC.Props.C17", "CC.Props.C17Alg", "CC.Props.C01Alg", "CC.Props.NonVacuity"], configs=BOTH, text=
     "Lean theorems: generated keys carry fresh, registered identifiers and the master key's tracers; identifiers of different keys differ; unknown identifiers are refused with nothing changed; refresh keeps registration; over every history all registered identifiers are made of tokens already drawn, so a key generation hands out an identifier nobody carries, registers it, and the key stays an issued key (registered, signature valid) after any further operations (new_key_id_fresh_and_stays_registered); (Mathlib, any field) the last marker solved from the others satisfies sum t_i a_i = s for every tracing level. Correspondence: keygen/refresh/round-trip/rollback histories; user counts, ids, tracer counts compared; the relation sum t_i a_i = s is evaluated by the Lean driver in Z/l on the real scalars (master key tracers and binding scalar, user key markers) of both curves")
-_hist_prop("C18", ["CC.Props.C18"],
+_hist_prop("C18", ["CC.Props.C18", "CC.Props.NonVacuity"],
     "Lean theorems: full_decaps recovers exactly the rights whose newest secret is activated and one of whose secrets opens a component; recaps draws a new secret and targets the published keys of exactly those rights in the flavour they all support; it fails when nothing is recovered; an up-to-date authorised key opens the result; over every history no key whose rights are all outside the recovered ones opens it (tokens never serve two rights: no_other_key_opens_recaps). Correspondence: histories with recaps after rekeys/prunes/disables/deletions under every public key; decaps matrices of the outputs compared")
 
 PROPS["C12"] = {
